@@ -47,7 +47,7 @@ def setup(rep, tier):
     rep.minimum('R10.4', 8)
     rep.minimum('R10.5', 8)
     rep.minimum('R10.6', 6)
-    rep.minimum('R10.7', 1)
+    rep.minimum('R10.7', 4)
     rep.minimum('R10.8', 7)
     rep.minimum('R10.9', 2)
     rep.minimum('R10.10', 1)
@@ -574,6 +574,27 @@ def r10_7(rep, prog):
                         bad.append((NS, NC, sx.callee_name(c), got, 'not reached'))
                 elif got != exp:
                     bad.append((NS, NC, sx.callee_name(c), got, exp))
+    # each query refuses the layout on its own: the branch taken when the answer is -1 returns 0 at once (a missing left
+    # channel is not excused by a present right one)
+    for b, i, c in sites:
+        cb = [bb for bb in cg.blocks if cg.cond(bb) is not None and any(x is c for x in sx.walk(cg.cond(bb)))]
+        inst2 = '%s:validate_encoder_layout refuses the layout when %s finds no channel (line %s)' % (prog.config, sx.callee_name(c), sx.line(c))
+        if not cb:
+            rep.unresolved('R10.7', inst2 + ': the answer is not tested in a branch condition')
+            continue
+        cnd = sx.strip_paren(cg.cond(cb[0]))
+        pol_missing = None
+        if sx.kind(cnd) == 'bin' and cnd[1] in ('==', '!=') and any(sx.int_val(sx.strip(y)) == -1 for y in (cnd[2], cnd[3])):
+            pol_missing = cnd[1] == '=='
+        if pol_missing is None:
+            rep.unresolved('R10.7', inst2 + ': test `%s` not recognised' % sx.show(cnd)[:40])
+            continue
+        act = T.failing_edge_action(cg, cb[0], not pol_missing)
+        if act == ('return', 0):
+            rep.holds('R10.7', inst2, '%s:%s' % (f.file, sx.line(c)), 'a missing channel returns 0 directly')
+        else:
+            rep.violated('R10.7', inst2, '%s:%s' % (f.file, sx.line(c)), 'when the query answers -1 the function goes on (%s) instead of returning 0: a coupled stream with only one side fed is accepted, and encoding reads input channel -1' % (act,),
+                         key='validate-encoder-layout:%s' % sx.callee_name(c))
     if bad:
         b0 = bad[0]
         rep.violated('R10.7', inst, f.where(), 'with %d streams of which %d coupled, %s is asked for stream ids %s, expected %s (%d of %d cases differ): some stream is accepted without an input channel' % (
